@@ -391,7 +391,7 @@ Print Assumptions C01_richardson_amg_strict.
    condition of its smoother kind) and the side conditions of C02_apply_linear_built *)
 From Amgcl Require Import MatOps DenseSolve AmgExec AmgProofs3 AmgProofs5 AmgProofs12 AmgSmooth3 KrylovRateBuilt.
 Theorem C01_richardson_built_amg_strict (S : Scalar) (Sft : Sfield S) (Seqb : seqb_spec S) (Ord : ordered S)
-  (Habs2 : forall v : S, sabs v * sabs v = v * v) kd ce dc ml ts (M : crs S) k nc pc :
+  (Habs2 : forall v : S, sabs v * sabs v = v * v) (Hadj : forall v : S, sadj v = v) kd ce dc ml ts (M : crs S) k nc pc :
   let ls := amg_init ce dc ml (@galerkin S) ts M in
   descs_ok kd ls -> top_strict_desc kd ls -> top_smoothed ls ->
   wf M = true -> ts_wf (nrows M) ts ->
@@ -409,7 +409,7 @@ Theorem C01_richardson_built_amg_strict (S : Scalar) (Sft : Sfield S) (Seqb : se
   forall j, j <= i ->
   olt (qA n (sort_rows M) (vsub u (k_x r)) (vsub u (k_x r)))
       (qA n (sort_rows M) (vsub u (rich_iter A B s1 (A u) j x0)) (vsub u (rich_iter A B s1 (A u) j x0))).
-Proof. exact (richardson_built_amg_strict Sft Seqb Ord Habs2 kd ce dc ml ts M k nc pc). Qed.
+Proof. exact (richardson_built_amg_strict Sft Seqb Ord Habs2 Hadj kd ce dc ml ts M k nc pc). Qed.
 Print Assumptions C01_richardson_built_amg_strict.
 
 (* a checkable certificate for an EXPLICIT contraction factor of a linear map T given as a function:
